@@ -232,6 +232,84 @@ def getMomentumProducer (c : Ctx) (elected : Nat → Option (List Bytes)) (t : I
           | some p => .ok p.producer
           | none => .error .noSlotStartsHere
 
+/-! ## Proof momentum: `GetMomentumBeforeTime` (chain/momentum/range.go)
+The chain is the list of momentum timestamps (Unix seconds) by height: `ts[h-1]` is the timestamp of height h. -/
+
+inductive BT where
+  | found (height : Nat)
+  | none                -- (nil, nil): no momentum before the instant
+  | err                 -- GetMomentumByHeight failed / returned nil
+  | hang                -- the estimate loop does not terminate
+deriving DecidableEq, Repr
+
+/-- specification: the last momentum whose timestamp is earlier than the instant `tNs` (nanoseconds) -/
+def beforeSpec (ts : List Int) (tNs : Int) : Option Nat :=
+  ((List.range ts.length).reverse.find? (fun i => decide (ts.getD i 0 * nsPerSec < tNs))).map (· + 1)
+
+/-- `GetMomentumByHeight(h).Timestamp.Unix()` -/
+def tsAt (ts : List Int) (h : Nat) : Option Int := if h = 0 then none else ts[h - 1]?
+
+/-- Go's `sort.Search(n, f)`: `i, j := 0, n; for i < j { h := (i+j)/2; if !f(h) { i = h+1 } else { j = h } }; return i` -/
+def searchLoop (f : Nat → Bool) : Nat → Nat → Nat → Nat
+  | 0, i, _ => i
+  | fuel + 1, i, j =>
+    if i < j then
+      let h := (i + j) / 2
+      if !f h then searchLoop f fuel (h + 1) j else searchLoop f fuel i h
+    else i
+
+def goSearch (n : Nat) (f : Nat → Bool) : Nat := searchLoop f (n + 1) 0 n
+
+/-- `binarySearchBeforeTime(start, end, timeNanosecond)` on heights lo..hi -/
+def binarySearchBefore (ts : List Int) (tNs : Int) (lo hi : Nat) : BT :=
+  let n := hi - lo + 1
+  let i := goSearch n (fun i => match tsAt ts (lo + i) with
+    | some b => decide (b * nsPerSec ≥ tNs)
+    | none => true)
+  if i ≥ n then .none
+  else if i = 0 then (match tsAt ts (lo - 1) with | some _ => .found (lo - 1) | none => .err)
+  else .found (lo + i - 1)
+
+/-- after the estimate loop: `if high.Height == low.Height+1 { return low }` else binary search -/
+def btFinish (ts : List Int) (tNs : Int) (hi lo : Nat) : BT :=
+  if hi = lo + 1 then .found lo else binarySearchBefore ts tNs lo hi
+
+/-- the estimate loop `for highBoundary == nil || lowBoundary == nil`; boundaries are heights -/
+def btLoop (ts : List Int) (tNs tSec : Int) (frontierH : Nat) : Nat → Nat → Option Nat → Option Nat → BT
+  | _, _, some hi, some lo => btFinish ts tNs hi lo
+  | 0, _, _, _ => .hang
+  | fuel + 1, est, high, low =>
+    match tsAt ts est with
+    | none => .err
+    | some b =>
+      if b * nsPerSec ≥ tNs then
+        -- highBoundary = block; gap := uint64(block.ts - timeSec); if gap <= 0 { gap = 1 }
+        let gap0 := toUInt64 (b - tSec)
+        let gap := if gap0 = 0 then 1 else gap0
+        if est ≤ gap then btFinish ts tNs est 1        -- lowBoundary = genesis; break
+        else btLoop ts tNs tSec frontierH fuel (est - gap) (some est) low
+      else
+        -- lowBoundary = block; estimateHeight = block.Height + uint64(timeSec - block.ts)
+        let est' := (est + toUInt64 (tSec - b)) % two64
+        let high' := if est' > frontierH then some frontierH else high
+        btLoop ts tNs tSec frontierH fuel est' high' (some est)
+
+/-- `momentumStore.GetMomentumBeforeTime(t)`; `tNs` = t.UnixNano(), chain non-empty (genesis = height 1).
+    The fuel (2·height+4 rounds) is never exhausted when the loop makes progress; see
+    `before_time_subsecond_hangs` for an input on which the real loop spins. -/
+def getMomentumBeforeTime (ts : List Int) (tNs : Int) : BT :=
+  match ts.head?, ts.getLast? with
+  | some g, some f =>
+    let frontierH := ts.length
+    if g * nsPerSec ≥ tNs then .none
+    else if f * nsPerSec < tNs then .found frontierH
+    else
+      let tSec := tNs / nsPerSec
+      let gap := toUInt64 (f - tSec)
+      let est := if frontierH > gap then frontierH - gap else 1
+      btLoop ts tNs tSec frontierH (2 * frontierH + 4) est none none
+  | _, _ => .err
+
 /-! ## Momentum verifier (verifier/momentum.go, vm/supervisor.go ApplyMomentum)
 The ORDER of the checks is not written here: it is read from the generated lists `Gen.MV_raw_all` and
 `Gen.MV_tx_all` (extracted from the AST of `rawMomentumVerifier.all` / `momentumTransactionVerifier.all`), so a
